@@ -21,6 +21,41 @@ pub mod mvcc;
 pub mod types;
 pub mod utils;
 
+/// Verification hook (compiled only with `--cfg grafeo_verif`): deterministic scheduling of
+/// the critical sections of concurrent operations.  Without an installed callback
+/// [`verif::yield_point`] does nothing.
+#[cfg(grafeo_verif)]
+pub mod verif {
+    use std::sync::atomic::{AtomicBool, Ordering};
+    use std::sync::{Arc, RwLock};
+
+    /// Scheduler callback; receives the name of the yield site.
+    pub type Hook = Arc<dyn Fn(&'static str) + Send + Sync>;
+
+    static ENABLED: AtomicBool = AtomicBool::new(false);
+    static HOOK: RwLock<Option<Hook>> = RwLock::new(None);
+
+    /// Installs (or, with `None`, removes) the scheduler callback.
+    pub fn set_hook(hook: Option<Hook>) {
+        let mut slot = HOOK.write().unwrap_or_else(|e| e.into_inner());
+        ENABLED.store(hook.is_some(), Ordering::SeqCst);
+        *slot = hook;
+    }
+
+    /// Marks the boundary between two critical sections of an operation.  Called with no lock
+    /// of the calling operation held.
+    #[inline]
+    pub fn yield_point(site: &'static str) {
+        if !ENABLED.load(Ordering::Relaxed) {
+            return;
+        }
+        let hook = HOOK.read().unwrap_or_else(|e| e.into_inner()).clone();
+        if let Some(hook) = hook {
+            hook(site);
+        }
+    }
+}
+
 // The types you'll use most often
 pub use mvcc::{Version, VersionChain, VersionInfo};
 pub use types::{EdgeId, EpochId, LogicalType, NodeId, PropertyKey, Timestamp, TxId, Value};
